@@ -708,6 +708,8 @@ class ControllerRun:
 
     def apply(self, act):
         pre = self.project()
+        self.ex.log_clear = True
+        mark = len(self.ex.gate_log)
         ev: Dict[str, Any] = {"a": act[0], "err": ""}
         try:
             if act[0] == "init":
@@ -745,6 +747,8 @@ class ControllerRun:
         if act[0] == "retry" and post == pre and not ev["err"]:
             return None
         ev["post"] = post
+        # which physical qubits the backend was asked to reset during this operation
+        ev["cleared"] = [g[3][0] for g in self.ex.gate_log[mark:] if g[0] == "clear"]
         return ev
 
 
